@@ -40,6 +40,17 @@ def wrap_variants(body_lines):
 
 
 BODIES = [
+    # every block-introducing construct has its own scope (declarations do not leak, may shadow, and later assignments hit the outer one)
+    (["var tag = \"outer\";", "var v = \"outer v\";", "var get = nil;",
+      "try { var t1 = 1; } finally { var tag = \"finally-local\"; var v = \"finally v\"; get = || v; tag = tag + \"!\"; }",
+      "print(tag);", "v = \"assigned after\";", "print(get());", "print(v);",
+      "if true { var tag = \"if-local\"; } else { var tag = \"else-local\"; }", "print(tag);",
+      "var k = 0; while k < 1 { var tag = \"while-local\"; k = k + 1; }", "print(tag);",
+      "for q in [1] { var tag = \"for-local\"; }", "print(tag);",
+      "try { throw 1; } catch e { var tag = \"catch-local\"; }", "print(tag);",
+      "try { var tag = \"try-local\"; } catch e { }", "print(tag);",
+      "{ var tag = \"block\"; { var tag = \"inner\"; } print(tag); }", "print(tag);"],
+     ["outer", "finally v", "assigned after", "outer", "outer", "outer", "outer", "outer", "block", "outer"]),
     (["var a = 1;", "var b = 2;", "var fa = || { a = a + b; return a; };", "var fb = |v| { b = v; return a + b; };",
       "print(fa());", "print(fb(10));", "print(fa());", "print(a);", "print(b);"], ["3", "13", "13", "13", "10"]),
     (["var fs = [];", "var i = 0;", "while i < 3 {", "    var j = i * 10;", "    fs.push(|| { j = j + 1; return j; });",
